@@ -44,6 +44,7 @@ PROP = dict(
           "it changes the decoded value or makes decoding fail) - rejection and exact consumption are "
           "both verdicts. Distinct = distinct input bytes."),
     assumptions=[
+        "fourth session: the bytes mutations include 'another value in one typed record' and 'a typed record the generators leave out'; generated channel_reestablish / revoke_and_ack values carry local_nonces maps of up to 16 entries (the decoder's documented maximum)",
         "value equivalence is deep equality with nil==empty slices/maps and net.Addr compared by String() (the relaxations lnd's own Fuzz* harnesses document); raw ExtraOpaqueData caches are decided by the byte-level fixpoint instead",
         "the allocation cap (24 MiB per decode of <= 65535 bytes; observed maximum 4.9 MiB = make([]Sig, 65535)) is a calibrated constant, not derived from the statement's '65 KB'",
         "the non-P2P tlv Decode is a trusted-input API and is only fed declared lengths <= 1 MiB (or >= 2^63 on the discard path)",
